@@ -827,6 +827,88 @@ func main() {
 	trans += tr2
 	samples = append(samples, map[string]any{"renderer": "quadtree", "scenes": len(shapes2), "resolutions": resos2, "example": shapes2[4].name})
 
+	// ---- histories: what a hierarchical renderer skipped or remembered in an earlier render must not leak into
+	// the next one - one renderer VALUE rendering a shape that is changed in place in between (a blend installed),
+	// two different shapes with bit-identical boxes, and a render by a different renderer type just before
+	{
+		sp := func(x float64) sdf.SDF3 {
+			return sdf.Transform3D(m3(sdf.Sphere3D(0.7)), sdf.Translate3d(v3.Vec{X: x}))
+		}
+		ci := func(x, r float64) sdf.SDF2 { return sdf.Transform2D(c2(r), sdf.Translate2d(v2.Vec{X: x})) }
+		bb3 := sdf.Box3{Min: v3.Vec{X: -1.5, Y: -1.5, Z: -1.5}, Max: v3.Vec{X: 1.5, Y: 1.5, Z: 1.5}}
+		bb2 := sdf.Box2{Min: v2.Vec{X: -1.5, Y: -1.5}, Max: v2.Vec{X: 1.5, Y: 1.5}}
+		for _, n := range []int{16, 33} {
+			// (a) same object, changed in place
+			u := sdf.Union3D(sp(-0.45), sp(0.45))
+			r := render.NewMarchingCubesOctree(n)
+			_ = render.ToTriangles(boxed3{u, bb3}, r)
+			shape := boxed3{u, bb3}
+			_ = render.ToTriangles(shape, r)
+			u.(*sdf.UnionSDF3).SetMin(sdf.PolyMin(0.4))
+			got := triKeys(render.ToTriangles(shape, r), 1)
+			want := triKeys(render.ToTriangles(shape, render.NewMarchingCubesOctree(n)), 1)
+			states++
+			trans += int64(len(got))
+			if a, b := diff(got, want); len(a)+len(b) > 0 {
+				c.Violation("octree|history|same-renderer-value-and-shape-object-changed-in-place", fmt.Sprintf("n=%d: after SetMin on the rendered union the same renderer value gives %d/%d triangles that a fresh renderer does not / does give", n, len(a), len(b)), map[string]any{"renderer": "octree", "meshCells": n})
+			}
+			u2 := sdf.Union2D(ci(-0.45, 0.7), ci(0.45, 0.7))
+			q := render.NewMarchingSquaresQuadtree(n)
+			shape2 := boxed2{u2, bb2}
+			_ = lattice.Collect2(shape2, q)
+			u2.(*sdf.UnionSDF2).SetMin(sdf.PolyMin(0.4))
+			g2, w2 := lineKeys(lattice.Collect2(shape2, q)), lineKeys(lattice.Collect2(shape2, render.NewMarchingSquaresQuadtree(n)))
+			states++
+			if a, b := diff(g2, w2); len(a)+len(b) > 0 {
+				c.Violation("quadtree|history|same-renderer-value-and-shape-object-changed-in-place", fmt.Sprintf("n=%d: after SetMin on the rendered union the same renderer value gives %d/%d segments that a fresh renderer does not / does give", n, len(a), len(b)), map[string]any{"renderer": "quadtree", "meshCells": n})
+			}
+			// (b) two different shapes with identical boxes, one renderer value
+			q = render.NewMarchingSquaresQuadtree(n)
+			A2, B2 := boxed2{ci(0.2, 1), bb2}, boxed2{sdf.Box2D(v2.Vec{X: 1.3, Y: 2.1}, 0.2), bb2}
+			_ = lattice.Collect2(A2, q)
+			g2, w2 = lineKeys(lattice.Collect2(B2, q)), lineKeys(lattice.Collect2(B2, render.NewMarchingSquaresQuadtree(n)))
+			states++
+			if a, b := diff(g2, w2); len(a)+len(b) > 0 {
+				c.Violation("quadtree|history|same-renderer-value-two-shapes-with-identical-boxes", fmt.Sprintf("n=%d: the second shape rendered by the same renderer value differs from a fresh render in %d/%d segments", n, len(a), len(b)), map[string]any{"renderer": "quadtree", "meshCells": n})
+			}
+			r = render.NewMarchingCubesOctree(n)
+			A3, B3 := boxed3{sp(0.2), bb3}, boxed3{m3(sdf.Box3D(v3.Vec{X: 1.3, Y: 2.1, Z: 0.9}, 0.2)), bb3}
+			_ = render.ToTriangles(A3, r)
+			got, want = triKeys(render.ToTriangles(B3, r), 1), triKeys(render.ToTriangles(B3, render.NewMarchingCubesOctree(n)), 1)
+			states++
+			if a, b := diff(got, want); len(a)+len(b) > 0 {
+				c.Violation("octree|history|same-renderer-value-two-shapes-with-identical-boxes", fmt.Sprintf("n=%d: the second shape rendered by the same renderer value differs from a fresh render in %d/%d triangles", n, len(a), len(b)), map[string]any{"renderer": "octree", "meshCells": n})
+			}
+			// (c) a render by another renderer type first (package-level pools shared between renderer types)
+			for _, first := range []string{"dc2d", "squares-uniform", "quadtree-other-lattice"} {
+				switch first {
+				case "dc2d":
+					_ = lattice.Collect2(A2, render.NewDualContouring2D(n))
+				case "squares-uniform":
+					_ = lattice.Collect2(A2, render.NewMarchingSquaresUniform(n))
+				default:
+					_ = lattice.Collect2(A2, render.NewMarchingSquaresQuadtree(n+3))
+				}
+				g2 = lineKeys(lattice.Collect2(B2, render.NewMarchingSquaresQuadtree(n)))
+				states++
+				if a, b := diff(g2, w2); len(a)+len(b) > 0 {
+					c.Violation("quadtree|history|after-a-render-by-"+first, fmt.Sprintf("n=%d: a quadtree render right after a %s render of another shape differs from the same render alone in %d/%d segments", n, first, len(a), len(b)), map[string]any{"renderer": "quadtree", "meshCells": n, "first": first})
+				}
+			}
+			for _, first := range []string{"uniform", "octree-other-lattice"} {
+				if first == "uniform" {
+					_ = render.ToTriangles(A3, render.NewMarchingCubesUniform(n))
+				} else {
+					_ = render.ToTriangles(A3, render.NewMarchingCubesOctree(n+3))
+				}
+				got = triKeys(render.ToTriangles(B3, render.NewMarchingCubesOctree(n)), 1)
+				states++
+				if a, b := diff(got, want); len(a)+len(b) > 0 {
+					c.Violation("octree|history|after-a-render-by-"+first, fmt.Sprintf("n=%d: an octree render right after a %s render of another shape differs from the same render alone in %d/%d triangles", n, first, len(a), len(b)), map[string]any{"renderer": "octree", "meshCells": n, "first": first})
+				}
+			}
+		}
+	}
 	c.Guard("pruning exercised (renders with fewer evaluations than the unpruned render)", nontrivial > 1000, fmt.Sprint(nontrivial))
 	c.Guard("pruning at >=2 levels (evaluations < 1/4 of unpruned)", prunedLevels2.Load() > 10, fmt.Sprint(prunedLevels2.Load()))
 	c.Guard("tangent instances (disc on a coarse corner) rendered", tangent.Load() > 0, fmt.Sprint(tangent.Load()))
